@@ -138,8 +138,9 @@ def check(rep, tier, seed):
             pass
     # names and labels with spaces and other unusual characters: the samples file is TAB-separated, the inline list uses
     # '=' and ','; the two must stay equivalent and labels that share a first word must stay distinct
-    odd = [("pop 1", "pop 2"), ("A B C", "A B"), (" x", "x "), ("p:q", "p;q"), ("naïve", "naive")]
-    for k, (l1, l2) in enumerate(odd if tier == "thorough" else odd[:3]):
+    # ... and a label may itself contain '=' (the inline entry is split at its FIRST '=': name, then label)
+    odd = [("pop 1", "pop 2"), ("A B C", "A B"), ("pop=north", "pop=south"), ("a=b=c", "a=b"), (" x", "x "), ("p:q", "p;q"), ("naïve", "naive"), ("=", "==")]
+    for k, (l1, l2) in enumerate(odd if tier == "thorough" else odd[:5]):
         cols = ["s 0", "s1", "s2", "s3"]
         recs = [[rng.choice(["0/0", "0/1", "1/1"]) for _ in cols] for _ in range(6)]
         sm = [("s 0", l1), ("s1", l2), ("s2", l1)]
@@ -175,7 +176,7 @@ def check(rep, tier, seed):
             rep.fail(kind="property-oracle", cls="axes:error-expected", case=" ".join(job[0]), argv=["sfs"] + job[0], stdin=job[1].decode(),
                      observed={"rc": rc, "stdout": so.decode()[:200], "stderr": se.decode()[:200]}, expected="non-zero exit, diagnostic, empty stdout",
                      detail="unknown sample / empty list must be a diagnosed error")
-    rep.assumptions += ["names are free of ',', '=', tab and newline", "contradictory duplicate entries are C17's subject (known finding F11)"]
+    rep.assumptions += ["sample names are free of ',', '=', tab and newline; labels of ',', tab and newline", "contradictory duplicate entries are C17's subject (known finding F11)"]
 
 
 if __name__ == "__main__":
